@@ -112,6 +112,7 @@ type Options struct {
 	MapChoices   bool // map iteration order is an environment choice (else always ascending)
 	Trace        bool // keep a textual step trace
 	Sites        map[int32]bool // with AccessPoints: the access sites that are scheduling points
+	MapSites     map[int32]bool // with MapChoices: only these range-over-map sites are choice points (nil = all)
 }
 
 // Race is one happens-before race reported by the monitor.
@@ -790,7 +791,7 @@ func SortedKeys[K comparable, V any](m map[K]V, site int32) []K {
 		if e.locs != nil && site >= 0 && m != nil {
 			e.acc(mapPtr(m), site, false)
 		}
-		if e.opts.MapChoices && len(keys) > 1 && !e.running.aborted {
+		if e.opts.MapChoices && len(keys) > 1 && !e.running.aborted && (e.opts.MapSites == nil || e.opts.MapSites[site]) {
 			keys = permute(keys, Choose(numPerms(len(keys))))
 		}
 	}
